@@ -273,8 +273,9 @@ def check_case(c):
                 if not (dpa <= tol(E("err_pa"), 1.0) + 1e-4 or outline <= tol(E("err_a"), x.a) + 1e-5 * abs(x.a)):
                     badf.append("pa")
                 for n in ("err_ra", "err_dec", "err_peak_flux", "err_a", "err_b", "err_pa", "err_int_flux", "local_rms", "psf_a", "psf_b"):
-                    if n == "err_pa" and x.err_pa > 10 and y.err_pa > 10:
-                        continue       # the position angle is undefined (nearly round fit): its error is ill-conditioned
+                    round_fit = abs(x.a - x.b) <= tol(E("err_a"), x.a) + 1e-5 * abs(x.a)
+                    if n == "err_pa" and ((x.err_pa > 10 and y.err_pa > 10) or round_fit):
+                        continue       # the position angle is undefined (round fit, a = b within its error): its error is ill-conditioned
                     if not close(float(getattr(x, n)), float(getattr(y, n)), 0.25 if n.startswith("err_") else 1e-6, 1e-12):
                         badf.append(n)
                 if badf:
